@@ -858,6 +858,39 @@ fn main() {
             }
         }
     }
+    // ---- phase J: long sequences (word counts around the powers of two a size threshold would sit
+    // at): the target is a repeated word pattern, the input has one wrong word at the start, in the
+    // middle or at the end, the prediction is the target, the input, or has a different wrong word
+    {
+        let lens = tu_verif::enumerate::threshold_lengths(run.pick(6, 8));
+        run.bounds.insert("long_phase".into(), json!(format!("word counts {lens:?} x 2 word patterns x 3 positions of the input's error x 3 predictions x use_graphemes (spelling F1 singletons; mean edit distances of (input, target))")));
+        let base_j = sp.end + (sequences(2, run.pick(5, 6)).len() + strings(&WIDE_ALPHA, run.pick(2, 3)).len()) as u64;
+        for (k, nw) in lens.iter().enumerate() {
+            if !run.unit(base_j + k as u64) {
+                continue;
+            }
+            for pat in [&["a", "b"][..], &["ab", "a", "ba", "b"][..]] {
+                let words: Vec<&str> = (0..*nw).map(|i| pat[i % pat.len()]).collect();
+                let target = words.join(" ");
+                for pos in [0, *nw / 2, *nw - 1] {
+                    let mut w = words.clone();
+                    w[pos] = "x";
+                    let input = w.join(" ");
+                    let mut w2 = words.clone();
+                    w2[(pos + 1) % *nw] = "y";
+                    let other = w2.join(" ");
+                    for pred in [&target, &input, &other] {
+                        for g in [false, true] {
+                            eval_single(&mut run, Kind::Spelling, [input.as_str(), pred.as_str(), target.as_str()], g, true);
+                        }
+                    }
+                    for g in [false, true] {
+                        check_med(&mut run, &[input.as_str()], &[target.as_str()], g);
+                    }
+                }
+            }
+        }
+    }
     // ---- phase A
     for ii in 0..n {
         for pi in 0..n {
